@@ -167,7 +167,7 @@ Definition committed_at (v : view) (k' : keeper) (a : addr) : Prop :=
   end /\ forall ky, k_stor k' a ky = w_stor (ref_commit v) a ky.
 
 Lemma to_native_to_wei n : to_native (to_wei n) = n.
-Proof. unfold to_native, to_wei. apply Z.div_mul. unfold WEI. lia. Qed.
+Proof. unfold to_native, to_wei. apply Z.quot_mul. unfold WEI. lia. Qed.
 
 Theorem commit_writes_visible s :
   Inv s -> clean (kp s) (journal s) (V s) -> kwf (kp s) ->
